@@ -546,3 +546,99 @@ func c03DirectedCrossMailbox(r *ev.Run) {
 		}
 	})
 }
+
+// c03DirectedArrivalDeleted: a message arrives already flagged \Deleted in a mailbox that another session has
+// selected; that session learns of it and expunges. The message must be gone (and nothing else).
+func c03DirectedArrivalDeleted(r *ev.Run) {
+	type combo struct {
+		flags  string
+		flush  string
+		remove string
+	}
+
+	var combos []combo
+
+	for _, fl := range []string{`\Deleted`, `\Seen \Deleted`, `\Deleted \Flagged kwz`} {
+		for _, fs := range []string{"NOOP", "FETCH", "IDLE", "CHECK"} {
+			for _, rm := range []string{"EXPUNGE", "UID EXPUNGE", "CLOSE"} {
+				combos = append(combos, combo{fl, fs, rm})
+			}
+		}
+	}
+
+	ev.Parallel(len(combos), 10, func(i int) {
+		cb := combos[i]
+
+		label := fmt.Sprintf("arrival-deleted-%d", i)
+		if r.OnlyCase != "" && r.OnlyCase != label {
+			return
+		}
+
+		w, err := newWorld(r, "C03", label, 2, []string{"INBOX", "Y"}, nil)
+		if err != nil {
+			r.Inconclusive("%s: %v", label, err)
+			return
+		}
+
+		defer w.close()
+
+		a, b := w.sess[0], w.sess[1]
+		model := newMailModel("INBOX", "Y")
+		keep, gone := w.marker(), w.marker()
+
+		w.exec(a, `APPEND Y (\Seen) `, imapc.Lit(simpleMessage(keep, nil)))
+		model.appendMsg("Y", keep, simpleMessage(keep, nil), []string{`\Seen`})
+		w.selectBox(b, "Y", false)
+
+		w.exec(a, fmt.Sprintf("APPEND Y (%s) ", cb.flags), imapc.Lit(simpleMessage(gone, nil)))
+		model.appendMsg("Y", gone, simpleMessage(gone, nil), strings.Fields(cb.flags))
+
+		if !mustQuiesce(r, w.s, 0, label) {
+			return
+		}
+
+		switch cb.flush {
+		case "NOOP", "CHECK":
+			w.exec(b, cb.flush)
+		case "FETCH":
+			w.exec(b, "FETCH 1:* (FLAGS)")
+			w.exec(b, "NOOP")
+		default:
+			ir := b.c.IdleStart()
+			if ir.Err == nil && ir.Status == "" {
+				ir = b.c.IdleDone(ir)
+			}
+
+			w.absorb(b, "IDLE", ir)
+		}
+
+		switch cb.remove {
+		case "EXPUNGE":
+			w.exec(b, "EXPUNGE")
+		case "UID EXPUNGE":
+			w.exec(b, "UID EXPUNGE 1:*")
+		default:
+			w.exec(b, "CLOSE")
+			b.box = ""
+		}
+
+		model.expunge("Y", nil)
+
+		r.Eval(1)
+		r.Distinct(fmt.Sprintf("arrival-deleted (%s) | %s | %s", cb.flags, cb.flush, cb.remove))
+
+		if w.isFailed() || !mustQuiesce(r, w.s, 0, label) {
+			return
+		}
+
+		v, err := freshView(w.s, 0, "Y", false)
+		if err != nil {
+			r.Inconclusive("%s: %v", label, err)
+			return
+		}
+
+		if kind, diff := compareBox(model.box("Y"), v, nil, false, nil); diff != "" {
+			w.violate("C03 arrival-deleted "+kind+" "+cb.flush+" "+cb.remove, fmt.Sprintf("a message was appended with (%s) to a mailbox another session had selected; that session did %s and then %s: the mailbox differs from the reference model: %s", cb.flags, cb.flush, cb.remove, diff), nil)
+		}
+	})
+}
